@@ -38,6 +38,7 @@ type c11Spec struct {
 	Fault     string        // close | cancel | writefault | readfault
 	BlockRead bool          // file reads block until their context is done
 	ReadBack  int           // replies the client still reads before closing (close fault)
+	Stalled   bool          // the peer stops reading after the prelude: the server's writer blocks in the middle of a reply
 }
 
 type c11State struct {
@@ -65,7 +66,7 @@ func c11Scenario(sp c11Spec) *explore.Scenario {
 			st.fs.BlockRead = spec.BlockRead
 			st.inner = p9p.SFileSys(st.fs)
 			st.sess = &stopCounter{Session: st.inner}
-			st.cli, st.srv = vconn.Pipe(false)
+			st.cli, st.srv = vconn.PipeDirs(false, spec.Stalled)
 			st.cli.Name, st.srv.Name = "cli", "srv"
 			st.ctx, st.cancel = vsched.WithCancel(context.Background())
 			vsched.Go("serve", func() {
@@ -110,6 +111,14 @@ func c11Scenario(sp c11Spec) *explore.Scenario {
 						st.client = "peer gone"
 						return
 					}
+				}
+				if spec.Stalled {
+					// read nothing any more; keep the connection open until
+					// serving has ended (the fault is the cancellation)
+					vsched.WaitFor("client.stalled", st.cli.ReadObj(), func() bool { return st.served })
+					st.cli.Close()
+					st.client = "stalled"
+					return
 				}
 				if spec.Fault == "close" {
 					for i := 0; i < spec.ReadBack; i++ {
@@ -234,6 +243,9 @@ func c11Specs() []c11Spec {
 		// a clunk queued behind the blocked read on the same fid, then the flush that releases both
 		c11Spec{Name: "blockedread+clunk+flush/close", Prelude: []p9p.Message{attach, walkAB, open1}, InFlight: []p9p.Message{read1, p9p.MessageTclunk{Fid: 1}, p9p.MessageTflush{Oldtag: 100}}, Fault: "close", BlockRead: true, ReadBack: 2}, // the flushed read is not answered: two replies at most
 		c11Spec{Name: "blockedread+clunk+flush/cancel", Prelude: []p9p.Message{attach, walkAB, open1}, InFlight: []p9p.Message{read1, p9p.MessageTclunk{Fid: 1}, p9p.MessageTflush{Oldtag: 100}}, Fault: "cancel", BlockRead: true},
+		// the peer has stopped reading: the writer is blocked in the middle of a reply when serving is cancelled
+		c11Spec{Name: "stat/cancel-while-writer-blocked", Prelude: []p9p.Message{attach}, InFlight: []p9p.Message{stat0}, Fault: "cancel", Stalled: true},
+		c11Spec{Name: "stat+stat/cancel-while-writer-blocked", Prelude: []p9p.Message{attach}, InFlight: []p9p.Message{stat0, stat0}, Fault: "cancel", Stalled: true},
 		c11Spec{Name: "blockedread+stat/cancel", Prelude: []p9p.Message{attach, walkAB, open1}, InFlight: []p9p.Message{read1, stat0}, Fault: "cancel", BlockRead: true},
 	)
 	return out
